@@ -18,18 +18,18 @@ import (
 func init() { register("c20", c20) }
 
 type c20case struct {
-	Op   string `json:"op"`
-	V    int64  `json:"v"`
-	B    []int  `json:"b"`
-	Buf  []int  `json:"buf"`
-	Mode int    `json:"mode"`
-	Tail  int   `json:"tail"`
-	After []int `json:"after"`
-	Ops  []int  `json:"ops"`
-	Lo   int64  `json:"lo"`
-	Hi   int64  `json:"hi"`
-	Seed int64  `json:"seed"`
-	N    int    `json:"n"`
+	Op    string `json:"op"`
+	V     int64  `json:"v"`
+	B     []int  `json:"b"`
+	Buf   []int  `json:"buf"`
+	Mode  int    `json:"mode"`
+	Tail  int    `json:"tail"`
+	After []int  `json:"after"`
+	Ops   []int  `json:"ops"`
+	Lo    int64  `json:"lo"`
+	Hi    int64  `json:"hi"`
+	Seed  int64  `json:"seed"`
+	N     int    `json:"n"`
 }
 
 func c20(raw json.RawMessage) interface{} {
@@ -492,6 +492,18 @@ func c20batch64(seed int64, n int) interface{} {
 	return col.result()
 }
 
+// c20decOne runs one decoder check; a run-time panic counts as a failure of that decoder on b.
+func c20decOne(col *c20collector, op string, b []byte, f func() string) {
+	defer func() {
+		if r := recover(); r != nil {
+			col.add(c20bad{Op: op, B: ints(b), What: fmt.Sprint("panic: ", r)})
+		}
+	}()
+	if w := f(); w != "" {
+		col.add(c20bad{Op: op, B: ints(b), What: w})
+	}
+}
+
 // c20decbatch decodes random byte strings (every first-byte class, lengths
 // 0..11) with both codecs and compares with the reference decoders, also on
 // the string cut to the announced length.
@@ -514,31 +526,32 @@ func c20decbatch(seed int64, n int) interface{} {
 				if len(b) > 0 && rng.Intn(3) > 0 {
 					b[0] = firsts[rng.Intn(len(firsts))]
 				}
-				func() {
-					defer func() {
-						if r := recover(); r != nil {
-							col.add(c20bad{Op: "itf8dec", B: ints(b), What: fmt.Sprint("panic: ", r)})
-						}
-					}()
+				c20decOne(col, "itf8dec", b, func() string {
 					v, k, ok := itf8.Decode(b)
 					rv, rk, rok := c20refDecITF8(b)
 					if v != rv || k != rk || ok != rok {
-						col.add(c20bad{Op: "itf8dec", B: ints(b), What: fmt.Sprintf("Decode = (%d, %d, %v), specification (%d, %d, %v)", v, k, ok, rv, rk, rok)})
-					} else if ok {
+						return fmt.Sprintf("Decode = (%d, %d, %v), specification (%d, %d, %v)", v, k, ok, rv, rk, rok)
+					}
+					if ok {
 						if v2, k2, ok2 := itf8.Decode(b[:k]); v2 != v || k2 != k || !ok2 {
-							col.add(c20bad{Op: "itf8dec", B: ints(b), What: "Decode depends on bytes beyond the announced length"})
+							return "Decode depends on bytes beyond the announced length"
 						}
 					}
-					lv, lk, lok := ltf8.Decode(b)
-					rlv, rlk, rlok := c20refDecLTF8(b)
-					if lv != rlv || lk != rlk || lok != rlok {
-						col.add(c20bad{Op: "ltf8dec", B: ints(b), What: fmt.Sprintf("Decode = (%d, %d, %v), specification (%d, %d, %v)", lv, lk, lok, rlv, rlk, rlok)})
-					} else if lok {
-						if v2, k2, ok2 := ltf8.Decode(b[:lk]); v2 != lv || k2 != lk || !ok2 {
-							col.add(c20bad{Op: "ltf8dec", B: ints(b), What: "Decode depends on bytes beyond the announced length"})
+					return ""
+				})
+				c20decOne(col, "ltf8dec", b, func() string {
+					v, k, ok := ltf8.Decode(b)
+					rv, rk, rok := c20refDecLTF8(b)
+					if v != rv || k != rk || ok != rok {
+						return fmt.Sprintf("Decode = (%d, %d, %v), specification (%d, %d, %v)", v, k, ok, rv, rk, rok)
+					}
+					if ok {
+						if v2, k2, ok2 := ltf8.Decode(b[:k]); v2 != v || k2 != k || !ok2 {
+							return "Decode depends on bytes beyond the announced length"
 						}
 					}
-				}()
+					return ""
+				})
 			}
 			col.mu.Lock()
 			col.checked += int64(n / workers)
